@@ -386,6 +386,22 @@ Section Validator.
 
   (* Validator.create_message (add_comments = False); the jsonschema message
      text is replaced by the error path and the validator keyword *)
+  (* the integer that follows the LAST occurrence of [key] in the path, if any:
+     scan the reversed path for the first element equal to the key, remembering
+     the element seen just before (= the one that follows it in the path) *)
+  Fixpoint occ_scan (key : str) (r : list pelem) (prev : option pelem) : option N :=
+    match r with
+    | [] => None
+    | PKey k :: r' =>
+        if str_eqb k key then match prev with Some (PIdx i) => Some i | _ => None end
+        else occ_scan key r' (Some (PKey k))
+    | PIdx i :: r' => occ_scan key r' (Some (PIdx i))
+    end.
+  Definition occurrence_after (key : str) (path : list pelem) : option N := occ_scan key (rev path) None.
+
+  Fixpoint last_opt_v (l : list value) : option value :=
+    match l with [] => None | [x] => Some x | _ :: l' => last_opt_v l' end.
+
   Definition create_message (rootdict : value) (e : verr) : res value :=
     let path := epath e in
     do dk <- match path with
@@ -425,6 +441,18 @@ Section Validator.
                       if is_nil path then Ok posd
                       else do has <- contains posd key;
                            if has then getitem posd (PKey key) else Ok posd);
+          (* since the fix recorded in known_findings.json: a repeatable keyword (PROCESSING, FORMATOPTION, ...) or
+             repeated POINTS has a LIST of position records, one per occurrence; the record of the occurrence the
+             error path names is used (the first one when the path names none, the last one when out of range) *)
+          do pd <- (match pd with
+                    | VList l =>
+                        let occ := match occurrence_after key path with Some i => N.to_nat i | None => O end in
+                        match nth_error l occ with
+                        | Some r => Ok r
+                        | None => match last_opt_v l with Some r => Ok r | None => Err PyIndexError end
+                        end
+                    | _ => Ok pd
+                    end);
           do line <- dict_get pd (Str "line");
           do column <- dict_get pd (Str "column");
           Ok (VDict DPlain (base ++ [(Str "line", line); (Str "column", column)]))
